@@ -24,6 +24,7 @@ type PlanC16 struct {
 	WriteGapMs  int       `json:"write_gap_ms"` // pause of the raw writer after each write
 	RecvCtxMs   int       `json:"recv_ctx_ms"`  // per-receive context deadline, 0 = 10 min
 	RecvRetry   int       `json:"recv_retry"`   // how often Receive is called again after a receive context expired
+	Trace       bool      `json:"trace"`        // the transport is configured with a TraceWriter
 }
 
 const minEnvLen = 40
@@ -118,6 +119,7 @@ func genC16(t *simrt.Tape, tier string) interface{} {
 	if t.Draw(2) == 0 {
 		p.PauseMs = 1 + t.Draw(2000)
 	}
+	p.Trace = t.Draw(4) == 0
 	if t.Draw(5) == 0 {
 		// a slow writer against a polling receiver: the envelope trickles in over several
 		// receive operations, each of which runs into its context deadline
@@ -159,6 +161,9 @@ func runC16(w *World, pi interface{}) {
 		frames = append(frames, exactMessage(fmt.Sprintf("m%d", i), s))
 	}
 	cfg := &lime.TCPConfig{ReadLimit: p.Limit}
+	if p.Trace {
+		cfg.TraceWriter = newDiscardTrace()
+	}
 	ctx, cancel := context.WithTimeout(context.Background(), time.Hour)
 	defer cancel()
 	var rx lime.Transport
@@ -316,7 +321,7 @@ func init() {
 		Run:    runC16,
 		MaxSim: 3 * time.Hour,
 		Rule: "plans = (read limit in {256,1000,4096,65536, default 8 MiB in the thorough tier}, 1-12 valid envelopes with exact encoded sizes drawn around the boundaries " +
-			"tiny / limit/2 / limit-2.. / limit-1,limit,limit+1 / between / 2*limit-1..+1 / above 2*limit / 10*limit at every position, receiver = accepted or dialled transport, " +
+			"tiny / limit/2 / limit-2.. / limit-1,limit,limit+1 / between / 2*limit-1..+1 / above 2*limit / 10*limit at every position, receiver = accepted or dialled transport, with or without a TraceWriter, " +
 			"fragmentation mode, write chunking or a single glued write, late reader for coalescing, a slow writer against a polling receiver that calls Receive again after each expired receive context); non-trivial = the real transport connected and at least one Receive ran; distinct = distinct (plan JSON, event-log hash)",
 	})
 }
